@@ -5,7 +5,7 @@
 set -u
 id=$1; n=$2; re=$3; shift 3; extra="$*"
 export GOFLAGS=-mod=mod GOPROXY=off GOSUMDB=off GOTOOLCHAIN=local
-src=/tmp/seed/$id/seed_out
+src=${SEEDROOT:-/tmp/seed}/$id/seed_out
 wt=/tmp/conf_$id$n
 git -C /repo worktree remove --force $wt 2>/dev/null
 git -C /repo worktree add -q --detach $wt HEAD || exit 2
